@@ -9,7 +9,7 @@ META = {
     "engine": "Faults",
     "technique": "TLA+ table fault class x instruction class x syntactic situation x form -> outcome class (reference) and a transcription of convertPanic / runFunc / the nested callback VM / nextCall's renderer restore (implementation-shaped), model-checked by TLC over the whole grid; TLA+ machine of the renderer's URL state (inURL, query, addAmpersand, removeQuestionMark) with actions Text/Show/EndURL model-checked over all item sequences; one generated program or template per case replayed into the real code under a host recover(); outcomes judged by TLC trace specs",
     "level": "model_checking",
-    "level_text": "Faults.tla: 132 concrete faults in 38 (fault class, instruction) pairs (integer division by zero for every integer kind, nil dereference through pointer/field/index/slice/range/interface method, index and slice bounds on slices/arrays/strings with constant and variable operands, failed and nil type assertions, close/send on nil/closed channels, nil-map write, unhashable keys in map read/write/delete/literal, negative and huge make sizes, slice-to-array-pointer conversion, comparison of uncomparable interface values, nil function calls, append overflow, explicit panics, panics and run-time errors raised inside native callbacks, Scriggo functions called back from native code, finite deep recursion, unshowable values) x 14 situations (top level, callee, deferred call, closure, function value, template show/statement/block/macro) x 3 forms (plain, recover in the function, recover in the caller): TLC explores the Raise->convertPanic->Unwind/Recover->Return machine for every cell and exhibits the cells where the transcribed convertPanic falls through to fatalError; every cell is one generated program/template run through scriggo.Build/BuildTemplate + Run under recover(), and TLC judges each logged outcome (never hostpanic; recover forms return nil). URLState.tla: every sequence of <=3 (quick) / <=4 (thorough) items (8 pieces as text or as shown value) in href/src/srcset: TLC checks the field-comment invariants, decode-back of every shown value and agreement of the action-wise and functional forms, exhibits the out-of-range reads; every sequence is rendered by the real code and judged (no host panic), the rendered attribute is compared with the model (drift).",
+    "level_text": "Faults.tla: 135 concrete faults (integer division by zero for every integer kind, nil dereference through pointer/field/index/slice/range/interface method, index and slice bounds on slices/arrays/strings with constant and variable operands, failed and nil type assertions, close/send on nil/closed channels, nil-map write, unhashable keys in map read/write/delete/literal, negative and huge make sizes, slice-to-array-pointer conversion, comparison of uncomparable interface values, nil function calls, append overflow, explicit panics, panics and run-time errors raised inside native callbacks, Scriggo functions called back from native code, finite deep recursion, unshowable values), runs ended by env.Stop) x 22 situations (top level, callee, deferred call, closure, function value, template show/statement/block/macro, and four multi-step panic/recover sequences - fault in flight while a nested call raises and recovers another panic, fault raised and recovered in a nested call of a deferred call, fault raised by a deferred call while another panic is in flight, fault raised after a deferred call recovered - in programs and in template blocks) x 3 forms (plain, recover in the function, recover in the caller) x 2 run options (no context, cancelable context): every cell is a script of panic events whose reference outcome is computed with the ideal conversion; TLC explores the NextEvent->convertPanic->End machine (with the close(stop) bookkeeping) for every cell and exhibits the cells where the transcribed convertPanic falls through to fatalError; every cell is one generated program/template run through scriggo.Build/BuildTemplate + Run under recover(), and TLC judges each logged outcome (never hostpanic; where the reference outcome is nil under a recover form, nil). Show grid: 36 odd values (structs embedding unexported structs, nil pointers to Stringers, channels, funcs, nil interface, maps with odd keys, self-referencing pointer/map/slice - those in a child process, whose death is an observation) x 23 template contexts x static type own|any, judged never hostpanic / processdeath. URLState.tla: every sequence of <=3 (quick) / <=4 (thorough) items (8 pieces as text or as shown value) in href/src/srcset: TLC checks the field-comment invariants, decode-back of every shown value and agreement of the action-wise and functional forms, exhibits the out-of-range reads; every sequence is rendered by the real code and judged (no host panic), the rendered attribute is compared with the model (drift).",
     "level_note": "Trusted: TLC, the Json module, the Go driver (string templates + recover + logging, no expected values). `Raised` (which Go panic value reaches convertPanic for each fault) is transcribed from run.go and from the panic messages of the Go toolchain in use; a drift between the model's outcome and the real one is reported as model_drift and never decides. Not covered: context cancellation and Stop (C11, C12), writer errors (C13), faults inside goroutines started by `go`, programs from the C01 generator, float faults.",
     "design_ref": "7/C05",
 }
@@ -21,9 +21,11 @@ FAMS = ["faults"]
 # eleven of the thirteen causes found by this check were fixed in /repo (known-findings.json, kind "fixed"); the two below are
 # deliberate-looking behaviour of native calls (no documented contract) and stay listed as known findings
 PROPOSED_KNOWN = [
-    {"kind": "known", "signature": {"fam": "show", "value": "nil-pointer-to-value-receiver-stringer", "ctx": "string-like"},
+    {"kind": "known", "signature": {"fam": "show", "value": "nil-pointer-to-value-receiver-stringer", "ctxclass": "string-like"},
      "what": "showing a nil pointer whose type has a value-receiver String method ((*time.Time)(nil), (*T)(nil)) in a text/HTML/attribute/CSS/string/Markdown/URL context: the renderer calls v.String() on the nil pointer -> Go run-time panic 'value method ... called using nil pointer' under OpShow -> host panic (fmt prints <nil>)"},
-    {"kind": "known", "signature": {"fam": "show", "value": "cyclic", "ctx": "script"},
+    {"kind": "known", "signature": {"fam": "show", "value": "nil_interface", "ctx": "cssstr"},
+     "what": "showing a nil interface value in a CSS string context: showInCSSString calls reflect.ValueOf(nil).Type() -> *reflect.ValueError under OpShow -> host panic"},
+    {"kind": "known", "signature": {"fam": "show", "value": "cyclic", "ctxclass": "script"},
      "what": "showing a self-referencing pointer / map / slice in a JavaScript or JSON context: showInJS/showInJSON recurse without a depth or cycle check -> the goroutine stack overflows and the Go run time kills the process (encoding/json returns an error)"},
 ]
 
@@ -271,7 +273,7 @@ def run(ctx, only=None):
              "url: every sequence of <= GenLen items (8 pieces x text|shown value) x {href, src, srcset} exported by TLC; "
              "non-trivial = has a shown value and the renderer escaped something (%XX or &amp; in the output) or the run did not return nil",
         exhaustive=True,
-        bounds="faults: 132 faults x 14 situations x 3 forms (applicable cells); url: " + ucov.get("bounds", ""),
+        bounds="faults: 135 faults x 22 situations (8 of them multi-step sequences) x 3 forms x 2 run options (applicable cells; quick: the cancelable-context half only for top level / deferred / multi-step / template block); show: 36 values x 23 contexts x 2 static types; url: " + ucov.get("bounds", ""),
         samples=fcov["samples"] + ucov["samples"],
         sensitivity_selftest={"faults": fcov.get("sensitivity_selftest"), "url": ucov.get("sensitivity_selftest")},
         unreproduced=fcov["unreproduced"] + ucov["unreproduced"],
